@@ -292,3 +292,6 @@ def replay(w):
 
         return run_w0(PROP, CONTRACTS).violations
     return replay_value(w, check_case, PROP, CONTRACTS)
+
+
+RULE += " Also 'large' shards (one field per case with 127..70000 bytes / 31..2100 elements / 31..257 entries, on generated and hand-built classes) and an 'after failures' shard."
